@@ -181,7 +181,9 @@ static void noop_processor(void *data, struct BpProcessorContext *ctx) { (void)d
 /* ---- BpEndecodeArray: element width x capacity x offset, unsigned + signed, incl. the batch-copy widths ---- */
 static void test_array(void) {
     u64 vals[80];
-    for (int nbits = 1; nbits <= 64; nbits++) for (int cap = 1; cap <= 5; cap++) for (int off = 0; off < 8; off++) for (int sg = 0; sg < 2; sg++) {
+    static const int caps[] = {1, 2, 3, 4, 5, 6, 7, 8, 9, 12, 16, 17, 33};
+    for (int nbits = 1; nbits <= 64; nbits++) for (int ci = 0; ci < (int)(sizeof caps / sizeof caps[0]); ci++) for (int off = 0; off < 8; off++) for (int sg = 0; sg < 2; sg++) {
+        int cap = caps[ci];
 #ifdef RT_BE
         if (sg && !(nbits == 8 || nbits == 16 || nbits == 32 || nbits == 64)) continue;
 #endif
@@ -193,7 +195,7 @@ static void test_array(void) {
             unsigned char *buf = (unsigned char *)malloc(blen + 1); buf[blen] = 0xA5; memset(buf, 0, blen);
             unsigned char *exp = (unsigned char *)calloc(1, blen + 1);
             unsigned char *store = (unsigned char *)calloc((size_t)cap, (size_t)size);
-            u64 elems[5];
+            u64 elems[40];
             for (int e = 0; e < cap; e++) {
                 /* element e holds basis value (vi+e) so neighbours differ */
                 u64 v = vals[(vi + e) % nv];
